@@ -107,16 +107,16 @@ def render(v):
 def run(ctx):
     r = ctx.rng.fork("c28")
     T = types(2)
+    compound = [t for t in T if not isinstance(t, str)]
+    k = 1 if ctx.quick else 25
+    # depth 3 by composition (the full set of depth-3 trees is far too large to enumerate)
+    T3 = [("array", t) for t in r.sample(compound, min(len(compound), 60 * k))] + \
+         [("option", t) for t in r.sample(compound, min(len(compound), 40 * k))] + \
+         [("tuple", (a, b, c)) for a, b, c in [tuple(r.sample(T, 3)) for _ in range(60 * k)]]
     if not ctx.quick:
-        deep = types(3)
-        extra = [t for t in deep if t not in set(T)]
-        r.shuffle(extra)
-        T = T + extra[:6000]
-    else:
-        T3 = [("array", t) for t in r.sample([t for t in T if not isinstance(t, str)], 60)] + \
-             [("option", t) for t in r.sample([t for t in T if not isinstance(t, str)], 40)] + \
-             [("tuple", (a, b, c)) for a, b, c in [tuple(r.sample(T, 3)) for _ in range(60)]]
-        T = T + T3
+        T3 += [("result", a, b) for a, b in [tuple(r.sample(T, 2)) for _ in range(600)]]
+        T3 += [("tuple", tuple(r.sample(T, 4))) for _ in range(400)]
+    T = T + T3
     cases = []
     n = 0
     for t in T:
